@@ -33,6 +33,12 @@ var c05AnchorFiles = []string{
 	"component/sniffing/conn_sniffer.go", "component/sniffing/sniffer.go",
 }
 
+// the detection probes and the functions around them, by name (file-independent)
+var c05ProbeFuncs = map[string]bool{
+	"readDnsMsgFromBufio": true, "handleTCPDnsFastPath": true, "prefetchForTcpSniff": true,
+	"readStreamOnceWithReadDeadline": true, "readStreamOnceAsync": true, "handleConn": true,
+}
+
 type c05PEv struct {
 	kind      string // arm | clear | close | dclear | dclose
 	arg       string // the deadline expression of an arming call
@@ -61,6 +67,10 @@ type c05Forwarder struct {
 }
 
 type c05Extractor struct {
+	zeroLocals map[string]bool   // `var x time.Time` inside the current declaration, never assigned
+	assigned   map[string]bool   // names assigned anywhere in the current declaration
+	clearers   map[string]int    // helper name -> index of the conn parameter it resets the deadline of
+	locals     map[string]string // single-assignment locals of the current declaration: name -> printed expression
 	forwarders map[string]c05Forwarder
 	zeroVars   map[string]bool // `var x time.Time` without initialiser: x is the zero time
 	params     map[string]bool // parameters of the enclosing declaration: X.SetReadDeadline(param) is pure forwarding
@@ -75,7 +85,11 @@ type c05Unit struct {
 
 func (x *c05Extractor) isZeroTime(e ast.Expr) bool {
 	if id, ok := e.(*ast.Ident); ok {
-		return x.zeroVars[id.Name]
+		if x.zeroLocals[id.Name] {
+			return true
+		}
+		_, shadowed := x.locals[id.Name]
+		return x.zeroVars[id.Name] && !shadowed && !x.assigned[id.Name]
 	}
 	cl, ok := e.(*ast.CompositeLit)
 	if !ok || len(cl.Elts) != 0 {
@@ -89,9 +103,29 @@ func (x *c05Extractor) isZeroTime(e ast.Expr) bool {
 	return ok && id.Name == "time" && se.Sel.Name == "Time"
 }
 
+// canon prints a receiver / deadline expression with single-assignment locals replaced by what they were
+// assigned (`tcp := conn.(*net.TCPConn)` → conn, `dl := time.Now().Add(c.halfCloseTimeout)` → that call).
+func (x *c05Extractor) canon(e ast.Expr) string {
+	s := types.ExprString(e)
+	for i := 0; i < 4; i++ {
+		v, ok := x.locals[s]
+		if !ok || v == s {
+			break
+		}
+		s = v
+	}
+	return s
+}
+
 // callEvent classifies one call expression.
 func (x *c05Extractor) callEvent(c *ast.CallExpr) (c05PEv, bool) {
 	line := x.fset.Position(c.Pos()).Line
+	// a helper whose only job is to reset a deadline: `clearReadDeadline(conn)`
+	if id, ok := c.Fun.(*ast.Ident); ok {
+		if pi, ok := x.clearers[id.Name]; ok && pi < len(c.Args) {
+			return c05PEv{kind: "clear", recv: x.canon(c.Args[pi]), line: line}, true
+		}
+	}
 	// a helper forwarding a deadline parameter: the call site is the arming site
 	var fname string
 	var recvExpr ast.Expr
@@ -106,9 +140,9 @@ func (x *c05Extractor) callEvent(c *ast.CallExpr) (c05PEv, bool) {
 		recv := ""
 		switch {
 		case fw.connParam >= 0 && fw.connParam < len(c.Args):
-			recv = types.ExprString(c.Args[fw.connParam])
+			recv = x.canon(c.Args[fw.connParam])
 		case fw.connParam < 0 && recvExpr != nil:
-			recv = types.ExprString(recvExpr)
+			recv = x.canon(recvExpr)
 			if fw.connField != "" {
 				recv += "." + fw.connField
 			}
@@ -119,7 +153,7 @@ func (x *c05Extractor) callEvent(c *ast.CallExpr) (c05PEv, bool) {
 				return c05PEv{kind: "clear", recv: recv, line: line}, true
 			}
 			if id, ok := targ.(*ast.Ident); !ok || !x.params[id.Name] {
-				return c05PEv{kind: "arm", recv: recv, line: line, arg: types.ExprString(targ)}, true
+				return c05PEv{kind: "arm", recv: recv, line: line, arg: x.canon(targ)}, true
 			}
 		}
 	}
@@ -127,7 +161,7 @@ func (x *c05Extractor) callEvent(c *ast.CallExpr) (c05PEv, bool) {
 	if !ok {
 		return c05PEv{}, false
 	}
-	recv := types.ExprString(se.X)
+	recv := x.canon(se.X)
 	switch se.Sel.Name {
 	case "SetReadDeadline", "SetDeadline":
 		if len(c.Args) != 1 {
@@ -139,7 +173,7 @@ func (x *c05Extractor) callEvent(c *ast.CallExpr) (c05PEv, bool) {
 		if id, ok := c.Args[0].(*ast.Ident); ok && x.params[id.Name] {
 			return c05PEv{}, false // a wrapper/helper forwarding its own parameter: armed at ITS call sites
 		}
-		return c05PEv{kind: "arm", recv: recv, line: line, arg: types.ExprString(c.Args[0])}, true
+		return c05PEv{kind: "arm", recv: recv, line: line, arg: x.canon(c.Args[0])}, true
 	case "Close":
 		if len(c.Args) == 0 {
 			return c05PEv{kind: "close", recv: recv, line: line}, true
@@ -149,19 +183,22 @@ func (x *c05Extractor) callEvent(c *ast.CallExpr) (c05PEv, bool) {
 }
 
 // c05CollectFile finds the zero-time variables and the forwarding helpers of one file.
-func c05CollectFile(f *ast.File, zero map[string]bool, fw map[string]c05Forwarder) {
-	ast.Inspect(f, func(n ast.Node) bool {
-		vs, ok := n.(*ast.ValueSpec)
-		if !ok || len(vs.Values) != 0 || vs.Type == nil {
-			return true
+func c05CollectFile(f *ast.File, zero map[string]bool, fw map[string]c05Forwarder, clearers map[string]int) {
+	// package-level `var x time.Time` without initialiser (locals are handled per declaration, c05ZeroLocals)
+	for _, d := range f.Decls {
+		gd, ok := d.(*ast.GenDecl)
+		if !ok || gd.Tok != token.VAR {
+			continue
 		}
-		if types.ExprString(vs.Type) == "time.Time" {
-			for _, nm := range vs.Names {
-				zero[nm.Name] = true
+		for _, sp := range gd.Specs {
+			vs, ok := sp.(*ast.ValueSpec)
+			if ok && len(vs.Values) == 0 && vs.Type != nil && types.ExprString(vs.Type) == "time.Time" {
+				for _, nm := range vs.Names {
+					zero[nm.Name] = true
+				}
 			}
 		}
-		return true
-	})
+	}
 	for _, d := range f.Decls {
 		fd, ok := d.(*ast.FuncDecl)
 		if !ok || fd.Body == nil || fd.Type.Params == nil {
@@ -192,6 +229,13 @@ func c05CollectFile(f *ast.File, zero map[string]bool, fw map[string]c05Forwarde
 			}
 			se, ok := c.Fun.(*ast.SelectorExpr)
 			if !ok || (se.Sel.Name != "SetReadDeadline" && se.Sel.Name != "SetDeadline") {
+				return true
+			}
+			// a plain function that resets the deadline of one of its parameters
+			if cl, ok := c.Args[0].(*ast.CompositeLit); ok && len(cl.Elts) == 0 && types.ExprString(cl.Type) == "time.Time" && fd.Recv == nil {
+				if cx, ok := se.X.(*ast.Ident); ok && idx(cx.Name) >= 0 {
+					clearers[fd.Name.Name] = idx(cx.Name)
+				}
 				return true
 			}
 			tid, ok := c.Args[0].(*ast.Ident)
@@ -471,14 +515,45 @@ func c05ExtractRows(repo string) ([]c05Row, error) {
 	var rows []c05Row
 	zero := map[string]bool{}
 	forwarders := map[string]c05Forwarder{}
-	for _, rel := range c05AnchorFiles {
-		f, err := parser.ParseFile(token.NewFileSet(), filepath.Join(repo, rel), nil, 0)
+	clearers := map[string]int{}
+	// zero-time variables, forwarding and clearing helpers may live in any file of the two packages; a probe
+	// that was moved to another file of its package is still a probe
+	files := append([]string(nil), c05AnchorFiles...)
+	inList := map[string]bool{}
+	for _, f := range files {
+		inList[f] = true
+	}
+	for _, dir := range []string{"control", "component/sniffing"} {
+		ents, err := os.ReadDir(filepath.Join(repo, dir))
 		if err != nil {
 			return nil, err
 		}
-		c05CollectFile(f, zero, forwarders)
+		for _, e := range ents {
+			name := e.Name()
+			if e.IsDir() || !strings.HasSuffix(name, ".go") || strings.HasSuffix(name, "_test.go") {
+				continue
+			}
+			rel := dir + "/" + name
+			f, err := parser.ParseFile(token.NewFileSet(), filepath.Join(repo, rel), nil, 0)
+			if err != nil {
+				continue // build-tagged variants that do not parse are not ours
+			}
+			c05CollectFile(f, zero, forwarders, clearers)
+			if !inList[rel] {
+				for _, d := range f.Decls {
+					if fd, ok := d.(*ast.FuncDecl); ok && c05ProbeFuncs[fd.Name.Name] {
+						files = append(files, rel)
+						inList[rel] = true
+						break
+					}
+				}
+			}
+		}
 	}
-	for _, rel := range c05AnchorFiles {
+	for _, rel := range files {
+		if _, err := os.Stat(filepath.Join(repo, rel)); err != nil {
+			continue // an anchor file that was merged into another one
+		}
 		fset := token.NewFileSet()
 		f, err := parser.ParseFile(fset, filepath.Join(repo, rel), nil, 0)
 		if err != nil {
@@ -489,7 +564,9 @@ func c05ExtractRows(repo string) ([]c05Row, error) {
 			if !ok || fd.Body == nil {
 				continue
 			}
-			x := &c05Extractor{fset: fset, limit: 4096, params: map[string]bool{}, forwarders: forwarders, zeroVars: zero}
+			x := &c05Extractor{fset: fset, limit: 4096, params: map[string]bool{}, forwarders: forwarders, zeroVars: zero,
+				clearers: clearers, locals: c05Locals(fd)}
+			x.zeroLocals, x.assigned = c05ZeroLocals(fd)
 			if fd.Type.Params != nil {
 				for _, fl := range fd.Type.Params.List {
 					for _, n := range fl.Names {
@@ -582,7 +659,9 @@ func TestVerifC05Paths(t *testing.T) {
 		if i == len(rows)-1 {
 			sep = ""
 		}
-		fmt.Fprintf(&sb, "  ⟨%q, %q, %d, %q, %q, %d, %s, %s⟩%s\n", r.file, r.fn, r.line, r.recv, r.arg, i, c05LeanBool(r.cleared), c05LeanBool(r.armFailed), sep)
+		fmt.Fprintf(&sb, "  ⟨%q, %q, %d, %q, %q, %s, %s, %d, %s, %s⟩%s\n", r.file, r.fn, r.line, r.recv, r.arg,
+			c05LeanBool(strings.HasPrefix(r.fn, "relayCore.")), c05LeanBool(strings.Contains(r.arg, "halfCloseTimeout")),
+			i, c05LeanBool(r.cleared), c05LeanBool(r.armFailed), sep)
 		fmt.Fprintf(&sum, "%s %s:%d recv=%s arg=%s cleared=%v armFailed=%v path=[%s]\n", r.fn, r.file, r.line, r.recv, r.arg, r.cleared, r.armFailed, r.sig)
 	}
 	sb.WriteString("]\nend DaeVerif.C05.Gen\n")
@@ -590,4 +669,76 @@ func TestVerifC05Paths(t *testing.T) {
 		t.Fatal(err)
 	}
 	_ = os.WriteFile(filepath.Join(VOutDir(), "c05_paths.txt"), []byte(sum.String()), 0o644)
+}
+
+// c05Locals: locals of one declaration that are assigned exactly once with `:=` from a type assertion, a
+// parenthesised expression or (for deadline expressions) any call — name -> printed right-hand side.
+func c05Locals(fd *ast.FuncDecl) map[string]string {
+	count := map[string]int{}
+	val := map[string]string{}
+	ast.Inspect(fd.Body, func(n ast.Node) bool {
+		as, ok := n.(*ast.AssignStmt)
+		if !ok {
+			return true
+		}
+		for i, l := range as.Lhs {
+			id, ok := l.(*ast.Ident)
+			if !ok || id.Name == "_" {
+				continue
+			}
+			count[id.Name]++
+			if as.Tok == token.DEFINE && len(as.Lhs) == len(as.Rhs) {
+				switch r := as.Rhs[i].(type) {
+				case *ast.TypeAssertExpr:
+					val[id.Name] = types.ExprString(r.X)
+				case *ast.ParenExpr:
+					val[id.Name] = types.ExprString(r.X)
+				case *ast.CallExpr:
+					val[id.Name] = types.ExprString(r)
+				}
+			} else if as.Tok == token.DEFINE && len(as.Rhs) == 1 && i == 0 {
+				// tcp, ok := conn.(*net.TCPConn)
+				if ta, isTA := as.Rhs[0].(*ast.TypeAssertExpr); isTA {
+					val[id.Name] = types.ExprString(ta.X)
+				}
+			}
+		}
+		return true
+	})
+	out := map[string]string{}
+	for k, v := range val {
+		if count[k] == 1 {
+			out[k] = v
+		}
+	}
+	return out
+}
+
+// c05ZeroLocals: `var x time.Time` declared inside fd and never assigned afterwards; and every assigned name.
+func c05ZeroLocals(fd *ast.FuncDecl) (map[string]bool, map[string]bool) {
+	decl := map[string]bool{}
+	assigned := map[string]bool{}
+	ast.Inspect(fd.Body, func(n ast.Node) bool {
+		switch v := n.(type) {
+		case *ast.ValueSpec:
+			if len(v.Values) == 0 && v.Type != nil && types.ExprString(v.Type) == "time.Time" {
+				for _, nm := range v.Names {
+					decl[nm.Name] = true
+				}
+			}
+		case *ast.AssignStmt:
+			for _, l := range v.Lhs {
+				if id, ok := l.(*ast.Ident); ok {
+					assigned[id.Name] = true
+				}
+			}
+		}
+		return true
+	})
+	for k := range decl {
+		if assigned[k] {
+			delete(decl, k)
+		}
+	}
+	return decl, assigned
 }
